@@ -142,7 +142,7 @@ mutual
 def fdefD (NF : List String) : FieldDecl → List String
   | .tupleOf item _ => fdefD NF item
   | .seqPos .list items _ _ => "fast:untyped-raw" :: fdefL NF items     -- surplus elements are copied raw
-  | .seqPos .deque items _ _ => "fast:positional-index:deque" :: fdefL NF items
+  | .seqPos .deque items _ _ => "positional-deque:unproved" :: fdefL NF items
   | .seqAny _ _ => ["fast:untyped-raw"]
   | .setAny _ _ => ["fast:untyped-raw"]
   | .mapAny _ => ["fast:untyped-raw"]
